@@ -92,6 +92,48 @@ theorem fast_mode_aliases :
     (store false [0x0a, 0x02, 0x68, 0x69] .stringField 2 2).read [0xff, 0xff, 0xff, 0xff] = [0x68, 0x69] := by
   decide
 
+/-! ### where the decoder's mode comes from: other components ran before
+
+The table above is indexed by the decoder's mode.  The generated `Unmarshal` does
+`dec := csproto.NewDecoder(p)` and calls `dec.SetMode(csproto.DecoderModeFast)` only when the code was
+generated with `enableunsafedecode=true` (fact `decoderSetup`).  Whether that is the whole story depends on
+`NewDecoder`: if it hands out a *recycled* object, the mode is whatever the previous user — lazyproto, which
+always switches its internal decoders to fast mode, or any hand-written fast-mode decoder — left in it.
+`leftBehind` is everything earlier activity in the process left for reuse (one Boolean per decoder: was it in
+fast mode), `fresh` is the regenerated fact that `NewDecoder` returns a newly constructed `Decoder` whose
+literal does not mention `mode`. -/
+
+/-- the mode (`true` = fast) of the decoder `NewDecoder` returns, and what is left for later calls -/
+def newDecoderMode (fresh : Bool) (leftBehind : List Bool) : Bool × List Bool :=
+  if fresh then (false, leftBehind) else
+  match leftBehind with
+  | [] => (false, [])
+  | m :: rest => (m, rest)
+
+/-- the mode the generated `Unmarshal` decodes in -/
+def unmarshalMode (fresh unsafeOption : Bool) (leftBehind : List Bool) : Bool :=
+  unsafeOption || (newDecoderMode fresh leftBehind).1
+
+/-- **whatever ran before, the mode is the user's option** (with the `NewDecoder` of the current tree) -/
+theorem mode_is_the_option (unsafeOption : Bool) (leftBehind : List Bool) :
+    unmarshalMode Generated.newDecoderIsFreshLiteral unsafeOption leftBehind = unsafeOption := by
+  have h : Generated.newDecoderIsFreshLiteral = true := Bridge.Aliasing.newDecoder_is_fresh_and_safe.1
+  simp [unmarshalMode, newDecoderMode, h]
+
+/-- **the clobber invariant for every cross-component history**: a message decoded without the unsafe option
+    reads the same after any overwrite of the input, whatever other decoders left behind -/
+theorem clobber_invariant_after_any_activity (leftBehind : List Bool) (input buf' : Bytes) (parts : List (Site × Nat × Nat)) :
+    (decoded (unmarshalMode Generated.newDecoderIsFreshLiteral false leftBehind) input parts).map (Comp.read buf') =
+    (decoded (unmarshalMode Generated.newDecoderIsFreshLiteral false leftBehind) input parts).map (Comp.read input) := by
+  rw [mode_is_the_option]; exact clobber_invariant input buf' parts
+
+/-- non-vacuity: with a `NewDecoder` that recycles objects without resetting their mode, one fast-mode decoder
+    left behind (a finished lazyproto decode) makes the next safe-option `Unmarshal` alias its input -/
+theorem recycling_decoders_would_alias :
+    unmarshalMode false false [true] = true ∧
+    (store (unmarshalMode false false [true]) [0x0a, 0x02, 0x68, 0x69] .stringField 2 2).read [0xff, 0xff, 0xff, 0xff] = [0xff, 0xff] := by
+  decide
+
 /-- the regenerated facts behind the table -/
 theorem facts :
     (∀ s ∈ Generated.decodeBytesSites, s.2 = "copied" ∨ s.2 = "subdecoder") ∧
@@ -99,5 +141,13 @@ theorem facts :
     (Generated.lazyDecoderClonesInSafeMode = true ∧ Generated.lazyDecodeFuncClones = true) :=
   ⟨Bridge.Templates.bytes_never_aliased_in_safe_mode, Bridge.Aliasing.decodeString_copies_in_safe_mode,
    Bridge.Aliasing.lazy_inputs_are_cloned⟩
+
+/-- … and behind the mode: `NewDecoder` constructs, only `SetMode` writes the mode, the templates call
+    `SetMode` only under the unsafe option -/
+theorem facts_decoder_mode :
+    (Generated.newDecoderIsFreshLiteral = true ∧ Generated.newDecoderLiteralFields.contains "mode" = false ∧
+      Generated.decoderModeWriters = ["SetMode"]) ∧
+    Generated.decoderSetup = [("singlefile.go.tmpl", true, true), ("permessage.go.tmpl", true, true)] :=
+  ⟨Bridge.Aliasing.newDecoder_is_fresh_and_safe, Bridge.Aliasing.generated_decoder_setup⟩
 
 end Csproto.C10
